@@ -43,50 +43,59 @@ _TUFLAGS = ['-fno-inline']
 _GEN = '_ZL3genP15CPPPreprocessoriij'
 
 
-def _cond(level, part, decor=0):
+def _cond(fam, level, fileset, nlines, nparts, part, decor=0, tiers=('quick', 'thorough')):
     """one residue class of the enumeration of well-nested files (see harness/c09_cond.cxx)"""
     tok = level == 't'
+    defs = {'FILESET': fileset, 'NLINES': nlines, 'NPARTS': nparts, 'PART': part}
     if tok:
-        hid = 'c09_cond_t%02d' % part
-        qd = {'NLINES': 3, 'NPARTS': _QT, 'PART': part}
-        td = {'NLINES': 5, 'NPARTS': _TT, 'PART': part}
+        hid = 'c09_%s_%02d' % (fam, part)
         cut = _COND_CUT
     else:
-        hid = 'c09_chars_d%d_%02d' % (decor, part)
-        qd = {'NLINES': 3, 'NPARTS': _QC, 'PART': part, 'CHARLEVEL': 1, 'DECOR': decor}
-        td = {'NLINES': 4, 'NPARTS': _TC, 'PART': part, 'CHARLEVEL': 1, 'DECOR': decor}
+        hid = 'c09_%s_d%d_%02d' % (fam, decor, part)
+        defs.update({'CHARLEVEL': 1, 'DECOR': decor})
         cut = _COND_CUT[5:]   # the character level stays real
     us = dict(_STR_US)
     for f in _REC:
         us[f] = 8
+    us['_ZN15CPPPreprocessor9InputFile3getEv.0'] = 2
+    us['_ZN15CPPPreprocessor9InputFile4peekEv.0'] = 2
+    menu = ('each line one of 17 kinds: #if 1/0, #ifdef D/U, #ifndef U/D, #elif 1/0, #elifdef D/U, #elifndef U/D, #else, #endif, '
+            '#define X, #error e, text marker' if fileset == 'F' else
+            'each line one of 7 classes {open true/false, elif true/false, #else, #endif, text}, the spelling of the class '
+            '(#if/#ifdef/#ifndef, #elif/#elifdef/#elifndef, marker/#define/#error) chosen by the line number')
+    b = {'defs': defs, 'unwind': 40, 'unwindset': us, 'cap': 900}
     h = {'id': hid, 'property': 'C09', 'src': 'c09_cond.cxx', 'entry': 'harness_c09_cond',
          'tus': ['src/cppparser/cppPreprocessor.cxx', 'src/cppparser/cppExpressionParser.cxx', 'src/cppparser/cppExpression.cxx',
                  'src/cppparser/cppDeclaration.cxx', 'src/cppparser/cppFile.cxx', 'src/dtoolutil/filename.cxx'],
          'skip_ctors': ['cppPreprocessor.cxx'], 'tuflags': _TUFLAGS,
-         'cut': cut + _UNREACHED + [_DISJUNCT], 'models': ['strdisjunct.c'],
-         'cbmc_flags': ['-D', 'VS_CAP=128'],
-         'desc': ('process_directive / skip_false_if_block / handle_if*_directive over every well-nested file of directive lines; '
-                  + ('line-level reader in place of the character level' if tok else
+         'cut': cut + _UNREACHED + [_DISJUNCT], 'models': ['strdisjunct.c'] if tok else ['strdisjunct.c', 'list.c'],
+         # --pointer-check makes symbolic execution quadratic in the number of locals that ever went out of scope
+         # (every dereference is compared against __CPROVER_dead_object's growing value set): off for these long
+         # concrete runs; bounds, overflow and division checks and the "crash:" assertions of base.c stay on
+         'cbmc_flags': ['-D', 'VS_CAP=128', '--no-pointer-check'], 'object_bits': 16,
+         'desc': ('process_directive / skip_false_if_block / handle_if*_directive over every well-nested file of %d directive lines; '
+                  % nlines + ('line-level reader in place of the character level' if tok else
                      'real character level (get, skip_whitespace, skip_comment, get_preprocessor_command/args) through the '
-                     'istream byte model, line spelling %d' % decor) + ' (residue class %d)' % part),
-         'domain': 'every well-nested file of NLINES lines whose index is PART mod NPARTS, each line one of 17 kinds: #if 1/0, '
-                   '#ifdef D/U, #ifndef U/D, #elif 1/0, #elifdef D/U, #elifndef U/D, #else, #endif, #define X, #error e, text '
-                   'marker; enumerated by a concrete depth-first loop unrolled inside the query (no symbolic input: symbolic '
-                   'bytes or line kinds make every std::string of the directive parser symbolic-length and symbolic execution '
-                   'does not terminate)' + ('' if tok else '; spelling 0 plain, 1 blanks around # and at line ends, 2 trailing '
-                   '/* # */ comments, 3 trailing // # comments'),
+                     'istream byte model, line spelling %d' % decor) + ' (residue class %d of %d)' % (part, nparts)),
+         'domain': 'every well-nested file of NLINES lines whose index is PART mod NPARTS, ' + menu + '; enumerated by a concrete '
+                   'loop over a generated table, unrolled inside the query (no symbolic input: symbolic bytes or line kinds make '
+                   'every std::string of the directive parser symbolic-length and symbolic execution does not terminate)'
+                   + ('' if tok else '; spelling 0 plain, 1 blanks around # and at line ends, 2 trailing /* # */ comments, '
+                      '3 trailing // # comments'),
          'oracle': 'C11 6.10.1 conditional-stack machine over the same file: the text lines reaching the driver, and the lines whose '
                    '#define / #error handler runs, are exactly those in kept groups; whole file consumed and nothing beyond',
-         'bounds': {'quick': {'defs': qd, 'unwind': 40, 'unwindset': us, 'cap': 600},
-                    'thorough': {'defs': td, 'unwind': 40, 'unwindset': us, 'cap': 3000}}}
-    if (tok and part >= _QT) or (not tok and part >= _QC):
-        h['tiers'] = ('thorough',)
+         'bounds': {'quick': b, 'thorough': b}, 'tiers': tiers}
     return h
 
 
-_QT, _TT = 4, 4
-_QC, _TC = 4, 4
-HARNESSES = [_cond('t', p) for p in range(_TT)]
+HARNESSES = (
+    [_cond('tok_f3', 't', 'F', 3, 4, p) for p in range(4)] +                      # all kinds, 3 lines: 123 files
+    [_cond('tok_r4', 't', 'R', 4, 2, p) for p in range(2)] +                      # 7 classes, 4 lines: 57 files (nesting)
+    [_cond('chr_f2', 'c', 'F', 2, 1, 0, d) for d in range(4)] +                   # real character level, 2 lines: 15 files x 4 spellings
+    [_cond('tok_r5', 't', 'R', 5, 8, p, tiers=('thorough',)) for p in range(8)] +        # 265 files
+    [_cond('tok_f4', 't', 'F', 4, 32, p, tiers=('thorough',)) for p in range(32)] +      # 1233 files
+    [_cond('chr_r4', 'c', 'R', 4, 2, p, d, tiers=('thorough',)) for d in range(4) for p in range(2)]
+)
 
 PROPERTY_INFO = {'C09': {'level': 'model_checking',
          'explanation': 'bounded symbolic execution (CBMC) of the real conditional-inclusion code of cppPreprocessor.cxx',
@@ -95,5 +104,3 @@ PROPERTY_INFO = {'C09': {'level': 'model_checking',
          'assumptions': []}}
 
 NOT_APPLICABLE = {}
-HARNESSES.append(dict(_cond('t', 0), id='c09_tmp', src='/var/tmp/a_c09c17/t5.cxx', tiers=('none',), models=['strdisjunct.c', '/var/tmp/a_c09c17/detect.c']))
-HARNESSES[-1]['bounds'] = {'quick': dict(HARNESSES[-1]['bounds']['quick'], unwind=6, cap=4, unwindset={k: v for k, v in HARNESSES[-1]['bounds']['quick']['unwindset'].items() if k != _GEN})}
